@@ -303,12 +303,6 @@ func (r *Region) Reach(target Ev, stop Ev) (Item, []*ssa.BasicBlock) {
 			continue
 		}
 		for k, succ := range b.Succs {
-			if r.Head != nil && succ == r.Head {
-				continue
-			}
-			if r.Allowed != nil && !r.Allowed[succ] {
-				continue
-			}
 			if r.Cut != nil && r.Cut(b, succ) {
 				continue
 			}
@@ -322,6 +316,12 @@ func (r *Region) Reach(target Ev, stop Ev) (Item, []*ssa.BasicBlock) {
 				}
 			}
 			if edgeBlocked {
+				continue
+			}
+			if r.Head != nil && succ == r.Head {
+				continue
+			}
+			if r.Allowed != nil && !r.Allowed[succ] {
 				continue
 			}
 			if _, ok := parent[succ]; !ok && succ != b {
@@ -460,12 +460,6 @@ func (r *Region) Find(ev Ev) []Item {
 			continue
 		}
 		for k, succ := range b.Succs {
-			if r.Head != nil && succ == r.Head {
-				continue
-			}
-			if r.Allowed != nil && !r.Allowed[succ] {
-				continue
-			}
 			if r.Cut != nil && r.Cut(b, succ) {
 				continue
 			}
@@ -481,6 +475,12 @@ func (r *Region) Find(ev Ev) []Item {
 						out = append(out, it)
 					}
 				}
+			}
+			if r.Head != nil && succ == r.Head {
+				continue
+			}
+			if r.Allowed != nil && !r.Allowed[succ] {
+				continue
 			}
 			stack = append(stack, wstate{succ, 0})
 		}
